@@ -463,7 +463,7 @@ int dorewritemodvattr(struct tlv *vendortlv, struct modattr *modvattr) {
 
     if (vendortlv->l <= 4 || !attrvalidate(vendortlv->v + 4, vendortlv->l - 4))
         return 0;
-    for (offset = 4; offset < vendortlv->l; offset += ATTRLEN(vendortlv->v + offset)) {
+    for (offset = 4; offset + 1 < vendortlv->l; offset += ATTRLEN(vendortlv->v + offset)) {
         if (ATTRTYPE(vendortlv->v + offset) == modvattr->t) {
             tmpattr = maketlv(ATTRTYPE(vendortlv->v + offset), ATTRVALLEN(vendortlv->v + offset), ATTRVAL(vendortlv->v + offset));
             if (!tmpattr)
@@ -556,7 +556,7 @@ int dorewritesupattr(struct radmsg *msg, struct tlv *supattr) {
                 return 0;
             }
             vendortype = (uint8_t *)supattr->v + 4;
-            for (v = attr->v + 4; v < attr->v + attr->l; v += *(v + 1)) {
+            for (v = attr->v + 4; v + 1 < attr->v + attr->l; v += *(v + 1)) {
                 if (*v == *vendortype) {
                     exist = 1;
                     break;
